@@ -119,8 +119,8 @@ def parseAbsResps (s : String) : Option (List Spec.AbsResp) :=
 
 def runModel (flavour : String) (chunks : List Bytes) (term : Term) (extra : Nat) : List Item :=
   let fuel := chunks.flatten.length + 2 + extra
-  if flavour == "s" then sessionS fuel extra { cap := DEFAULT_CAP, data := [] } chunks term
-  else sessionA fuel extra [] chunks term
+  if flavour == "s" then sessionS fuel extra .initial { cap := DEFAULT_CAP, data := [] } chunks term
+  else sessionA fuel extra .initial [] chunks term
 
 /-- whole-stream reference (`decodeAll`): everything in one chunk -/
 def runWhole (stream : Bytes) (term : Term) : List Item :=
